@@ -34,6 +34,10 @@ type rparams struct {
 	// Reload: the operator reloads the user list between the recording and the replay
 	// ("same": identical list, "added": one more user); the server is driven at the Mux level
 	Reload string
+	// Hold (kind mid-delivery): the bytes of the genuine connection from this offset on reach the
+	// server 2 s late; the copy of the first segment is presented 1 s into that hold
+	Hold int64
+	Prop string // property the scenario is run for (default C06)
 }
 
 func (p rparams) String() string {
@@ -41,7 +45,7 @@ func (p rparams) String() string {
 	if p.UDP {
 		t = "udp"
 	}
-	return fmt.Sprintf("%s tp=%s kind=%s when=%s wait=%v cache-capacity=%d reload=%q seed=%d", t, p.TP, p.Kind, p.When, p.Wait, p.Capacity, p.Reload, p.Seed)
+	return fmt.Sprintf("%s tp=%s kind=%s when=%s wait=%v cache-capacity=%d reload=%q hold-at=%d seed=%d", t, p.TP, p.Kind, p.When, p.Wait, p.Capacity, p.Reload, p.Hold, p.Seed)
 }
 
 var debugCache = os.Getenv("VERIF_DEBUG_CACHE") != ""
@@ -49,11 +53,18 @@ var debugCache = os.Getenv("VERIF_DEBUG_CACHE") != ""
 var advIP = net.IPv4(10, 66, 0, 1)
 
 func rexec(p rparams, pats []xfer.NamedTP, ctl *explore.Ctl) explore.Result {
-	v := &xfer.Verdict{Prop: "C06"}
+	if p.Prop == "" {
+		p.Prop = "C06"
+	}
+	v := &xfer.Verdict{Prop: p.Prop}
 	protocol.VerifReplayCapacity = p.Capacity
 	defer func() { protocol.VerifReplayCapacity = 0 }()
 	cfg := world.Config{UDP: p.UDP, MTU: 1400, ClientTP: xfer.FindTP(pats, p.TP), ServerTP: xfer.FindTP(pats, p.TP), Seed: p.Seed, Horizon: 400 * time.Second}
-	cfg.RawMux = p.Reload != ""
+	cfg.RawMux = p.Reload != "" || p.Kind == "cross-transport"
+	cfg.BothTransports = p.Kind == "cross-transport"
+	if p.Kind == "mid-delivery" {
+		cfg.C2S.HoldAt, cfg.C2S.HoldFor = p.Hold, 2*time.Second
+	}
 	if p.Ds > 0 {
 		cfg.Stalls = []time.Duration{5 * time.Millisecond, 1500 * time.Millisecond}
 	}
@@ -107,23 +118,71 @@ func rexec(p rparams, pats []xfer.NamedTP, ctl *explore.Ctl) explore.Result {
 			}
 		}
 		nBefore := len(w.Net.Dgrams)
-		// genuine session: write, read the echo
-		c, err := dial(1000)
-		if err != nil {
-			v.Add("setup", "genuine dial failed: %v", err)
-			return
-		}
 		msg := world.Pattern(0, 'c', 0, 1500)
 		if p.Capacity > 0 {
 			msg = msg[:100]
 		}
-		if _, err := c.Write(msg); err != nil {
-			v.Add("setup", "genuine write failed: %v", err)
-			return
-		}
 		echo := make([]byte, len(msg))
-		if _, err := io.ReadFull(c, echo); err != nil {
-			v.Add("setup", "genuine read failed: %v", err)
+		// genuine session: write, read the echo
+		var c net.Conn
+		genuine := func() bool {
+			var err error
+			c, err = dial(1000)
+			if err != nil {
+				v.Add("setup", "genuine dial failed: %v", err)
+				return false
+			}
+			if _, err := c.Write(msg); err != nil {
+				v.Add("setup", "genuine write failed: %v", err)
+				return false
+			}
+			if _, err := io.ReadFull(c, echo); err != nil {
+				v.Add("setup", "genuine read failed: %v", err)
+				return false
+			}
+			return true
+		}
+		if p.Kind == "mid-delivery" {
+			// the genuine first segment is on the wire but its tail is held up; the adversary, who sees
+			// the wire, presents a complete copy on a connection of its own during the hold
+			var g world.Group
+			ok := false
+			g.Go("genuine", "client", func() { ok = genuine() })
+			vsched.Sleep(time.Second)
+			var tap *simnet.StreamTap
+			for _, t := range w.Net.Streams {
+				if t.Dir == "c2s" && len(t.Writes) > 0 && tap == nil {
+					tap = t
+				}
+			}
+			if tap == nil {
+				v.Add("setup", "the genuine client wrote nothing within 1 s")
+				return
+			}
+			first := append([]byte(nil), tap.Data[:tap.Writes[0]]...)
+			var midConn *simnet.Conn
+			d := simnet.Dialer{N: w.Net, Source: advIP, OnConn: func(c *simnet.Conn) { midConn = c }}
+			ac, err := d.DialContext(nil, "tcp", fmt.Sprintf("10.0.0.1:%d", world.ServerPort))
+			if err != nil {
+				v.Add("setup", "adversary dial failed: %v", err)
+				return
+			}
+			ac.Write(first)
+			replays++
+			inBounds++
+			g.Wait()
+			if !ok {
+				if len(v.Viol) == 0 {
+					v.Add("genuine-traffic-disturbed", "the genuine connection whose first segment was copied during its delivery failed")
+				}
+				return
+			}
+			defer func() {
+				if midConn != nil {
+					midConn.Close()
+				}
+			}()
+		} else if !genuine() {
 			return
 		}
 		if p.When == "after-close" {
@@ -151,6 +210,16 @@ func rexec(p rparams, pats []xfer.NamedTP, ctl *explore.Ctl) explore.Result {
 				if t.ConnID == 0 && t.Dir == "c2s" {
 					tap = t
 				}
+			}
+			if p.Kind == "cross-transport" {
+				// the recorded first TCP segment (an open request without payload) as one datagram to the
+				// server's UDP port, from the adversary's address
+				advAddr := &net.UDPAddr{IP: advIP, Port: 5555}
+				w.Net.NewEndpoint(advIP, 5555)
+				w.Net.Inject(advAddr, &net.UDPAddr{IP: net.IPv4(10, 0, 0, 1), Port: world.ServerPort}, tap.Data[:tap.Writes[0]])
+				replays++
+				inBounds++
+				vsched.Sleep(20 * time.Millisecond)
 			}
 			var cuts []int
 			switch p.Kind {
@@ -212,6 +281,17 @@ func rexec(p rparams, pats []xfer.NamedTP, ctl *explore.Ctl) explore.Result {
 				vsched.Sleep(20 * time.Millisecond)
 			}
 			switch p.Kind {
+			case "cross-transport":
+				// the recorded open request datagram as the first bytes of a TCP connection
+				d := simnet.Dialer{N: w.Net, Source: advIP, OnConn: func(c *simnet.Conn) { advConns = append(advConns, c) }}
+				ac, err := d.DialContext(nil, "tcp", fmt.Sprintf("10.0.0.1:%d", world.ServerPort))
+				if err != nil {
+					v.Add("setup", "adversary dial failed: %v", err)
+					return
+				}
+				ac.Write(recorded[0].B)
+				replays++
+				inBounds++
 			case "each", "all":
 				for _, d := range recorded {
 					send(d)
@@ -256,15 +336,17 @@ func rexec(p rparams, pats []xfer.NamedTP, ctl *explore.Ctl) explore.Result {
 		v.Add("panic", "panic in mieru goroutine: %s", pn)
 	}
 	// oracle: nothing is ever sent toward the replaying party, and it never reaches Accept
-	if !p.UDP {
+	cross := p.Kind == "cross-transport"
+	if !p.UDP || cross {
 		for _, t := range ex.W.Net.Streams {
-			if t.Dir == "s2c" && t.ConnID >= 1 {
+			if t.Dir == "s2c" && (t.ConnID >= 1 || cross) {
 				if ta, ok := t.To.(*net.TCPAddr); ok && ta.IP.Equal(advIP) && len(t.Data) > 0 {
 					v.Add("replay/tcp-reply", "the server wrote %d bytes to a connection that replayed recorded traffic (%s)", len(t.Data), p.Kind)
 				}
 			}
 		}
-	} else {
+	}
+	if p.UDP || cross {
 		for _, d := range ex.W.Net.Dgrams {
 			if d.To.IP.Equal(advIP) {
 				v.Add("replay/udp-reply", "the server sent a %d-byte datagram to the address that replayed recorded datagrams", len(d.B))
@@ -287,6 +369,56 @@ func rexec(p rparams, pats []xfer.NamedTP, ctl *explore.Ctl) explore.Result {
 	return explore.Result{Outcome: out, Violations: v.Viol, Steps: ex.Steps}
 }
 
+// PartyWithoutCredentialUnits are the replay scenarios in which the replaying party obtains a
+// session on the unchanged protocol only if the server mistakes recorded traffic for new: they
+// are also run for C05 (a party without credential never obtains a session or a reply).
+func PartyWithoutCredentialUnits(prop string) []runner.Unit {
+	pats := xfer.Patterns("quick")
+	run := func(u *runner.U, p rparams) {
+		p.Prop = prop
+		u.Sample(p.String())
+		u.Explore(explore.Bound{}, p.String(), func(ctl *explore.Ctl) explore.Result { return rexec(p, pats, ctl) })
+		u.Distinct(p.String())
+	}
+	var us []runner.Unit
+	// a copy of the first segment presented while the original is still being delivered
+	us = append(us, runner.Unit{Name: "replay-mid-delivery", Cost: 3, Run: func(u *runner.U) {
+		i := 0
+		// (a copy that arrives before the original's 72 header bytes is simply the first arrival: out of scope)
+		for _, hold := range []int64{72, 73, 80, 90, 120, 200} {
+			for _, tp := range []string{"nil", "pad255"} {
+				i++
+				run(u, rparams{TP: tp, Kind: "mid-delivery", When: "during", Hold: hold, Seed: int64(600 + i)})
+			}
+		}
+	}})
+	// the server listens on TCP and UDP: the recorded first segment of one transport is presented on the other
+	us = append(us, runner.Unit{Name: "replay-cross-transport", Cost: 3, Run: func(u *runner.U) {
+		i := 0
+		for _, udp := range []bool{false, true} {
+			for _, when := range []string{"during", "after-close"} {
+				for _, wait := range []time.Duration{0, 6 * time.Second, 60 * time.Second} {
+					for _, tp := range []string{"nil", "pad255", "le40-R1"} {
+						i++
+						run(u, rparams{UDP: udp, TP: tp, Kind: "cross-transport", When: when, Wait: wait, Seed: int64(500 + i)})
+					}
+				}
+			}
+		}
+	}})
+	// recorded datagrams of a session that has ended and been forgotten by the server
+	us = append(us, runner.Unit{Name: "replay-udp-after-session-forgotten", Cost: 3, Run: func(u *runner.U) {
+		i := 0
+		for _, wait := range []time.Duration{6 * time.Second, 11 * time.Second, 70 * time.Second} {
+			for _, tp := range []string{"nil", "pad255"} {
+				i++
+				run(u, rparams{UDP: true, TP: tp, Kind: "each", When: "after-close", Wait: wait, Seed: int64(700 + i)})
+			}
+		}
+	}})
+	return us
+}
+
 func replayUnits(tier string) []runner.Unit {
 	pats := xfer.Patterns("quick")
 	run := func(u *runner.U, p rparams) {
@@ -297,6 +429,7 @@ func replayUnits(tier string) []runner.Unit {
 		}
 	}
 	var us []runner.Unit
+	us = append(us, PartyWithoutCredentialUnits("C06")...)
 	us = append(us, runner.Unit{Name: "replay-tcp", Cost: 5, Run: func(u *runner.U) {
 		i := 0
 		for _, kind := range []string{"whole", "first", "prefix"} {
